@@ -289,7 +289,15 @@ class ScalarFuncs:
     @_scalar_func_decorator
     def sum(cur_sum, next_val, count):
         if count:
-            # a null stays null: NaN does so by itself, the integer sentinel (NaT) does not
+            return cur_sum + next_val, count + 1
+        else:
+            return next_val, count + 1
+
+    @_scalar_func_decorator
+    def nullsum(cur_sum, next_val, count):
+        # non-skipping sum of timestamps / timedeltas: NaT is an in-band integer sentinel which,
+        # unlike NaN, does not stay null under addition
+        if count:
             if is_null(cur_sum):
                 return cur_sum, count + 1
             if is_null(next_val):
@@ -1781,6 +1789,9 @@ def _apply_cumulative(
     values, orig_dtypes = zip(*list(map(_cast_timestamps_to_ints, values)))
     values = NumbaList(values)  # zip gives a tuple, which the kernels cannot iterate when chunked
     orig_dtype = orig_dtypes[0]
+    if name == "sum" and orig_dtype.kind in "mM":
+        # plain integers hold no nulls and are simply added; a NaT has to stay NaT
+        reduce_func = ScalarFuncs.nullsum
 
     target = _build_target_for_groupby(
         # counts are signed integers whatever is counted (-1 marks rows without a group)
